@@ -257,6 +257,9 @@ func TestC04(t *testing.T) {
 		for i, a := range aggs {
 			realAggs[i] = a.Build(in.MustCol(a.Col).Kind)
 		}
+		if rapid.IntRange(0, 3).Draw(t, "secondcall") == 0 {
+			_ = hx.Safely(func() { _ = grouper.Aggregate(realAggs...) }) // the second Aggregate of the same Grouper counts
+		}
 		if perr := hx.Safely(func() { res = grouper.Aggregate(realAggs...) }); perr != nil {
 			t.Fatalf("Aggregate panicked: %v\n%s", perr, desc())
 		}
